@@ -24,7 +24,30 @@ fi
 # each run uses a private copy of the binary so that concurrent rebuilds do not disturb it
 BIN="$V/.build/kvqlmc.$$"
 cp "$V/.build/kvqlmc" "$BIN" || exit 2
-"$BIN" check "$ID" --tier "$TIER"
+RACEBIN=""
+if [ "$ID" = "C19" ]; then
+  # C19: instrument the current /repo sources into a build overlay (package-level
+  # variable accesses become scheduling points + conflict-monitor records) and
+  # build the race-detector binary of the supporting free-running pass.
+  IDIR="$V/.build/instr.$$"
+  rm -rf "$IDIR"
+  if "$BIN" instr /repo "$IDIR" > "$IDIR.log" 2>&1 && \
+     (cd "$V/mc" && go build -tags verifinstr -overlay "$IDIR/overlay.json" -o "$BIN.instr" ./cmd/kvqlmc) >> "$IDIR.log" 2>&1; then
+    cat "$IDIR.log"
+    mv "$BIN.instr" "$BIN"
+  else
+    echo "NOTE: instrumented build failed; C19 falls back to storage-call granularity (instrumentation: fallback)"
+    tail -5 "$IDIR.log"
+  fi
+  RACEBIN="$V/.build/racepass.$$"
+  if ! (cd "$V/mc" && go build -race -o "$RACEBIN" ./cmd/racepass) > "$IDIR.race.log" 2>&1; then
+    echo "NOTE: race-detector build failed; supporting pass skipped"
+    tail -3 "$IDIR.race.log"
+    RACEBIN=""
+  fi
+  rm -rf "$IDIR" "$IDIR.log" "$IDIR.race.log"
+fi
+VERIF_RACE_BIN="$RACEBIN" "$BIN" check "$ID" --tier "$TIER"
 rc=$?
-rm -f "$BIN"
+rm -f "$BIN" "$RACEBIN"
 exit $rc
